@@ -34,6 +34,7 @@ typedef struct {
 static lthread T[MAXT];
 static ucontext_t main_ctx;
 static int nthr_cfg = 2, nthr = 0, cur = -1, active = 0;
+static int callers_mode = 0; /* two independent kernel CALLS run as the logical threads (concurrent python callers) */
 
 /* schedule */
 static int *sched = NULL;
@@ -416,11 +417,11 @@ int __tsan_atomic64_compare_exchange_weak(volatile long *p, long *c, long v, int
     return __tsan_atomic64_compare_exchange_strong(p, c, v, mo, fmo);
 }
 
-int omp_get_thread_num(void) { return (active && cur >= 0) ? cur : 0; }
-int omp_get_num_threads(void) { return active ? nthr : 1; }
+int omp_get_thread_num(void) { return (active && cur >= 0 && !callers_mode) ? cur : 0; }
+int omp_get_num_threads(void) { return (active && !callers_mode) ? nthr : 1; }
 int omp_get_max_threads(void) { return nthr_cfg; }
 void omp_set_num_threads(int n) { (void)n; /* the driver decides */ }
-int omp_in_parallel(void) { return active; }
+int omp_in_parallel(void) { return active && !callers_mode; }
 
 static void tramp(int t) {
     T[t].fn(T[t].data);
@@ -431,7 +432,7 @@ static void tramp(int t) {
 
 void GOMP_parallel(void (*fn)(void *), void *data, unsigned num_threads, unsigned flags) {
     (void)flags;
-    if (active) { /* nested: serialise */
+    if (active) { /* nested (or inside one of two concurrent callers): serialise, one thread */
         fn(data);
         return;
     }
@@ -488,7 +489,7 @@ void GOMP_parallel(void (*fn)(void *), void *data, unsigned num_threads, unsigne
     phase++;
 }
 void GOMP_barrier(void) {
-    if (!active) return;
+    if (!active || callers_mode) return;
     barrier_count++;
     if (barrier_count == nthr) {
         barrier_count = 0;
@@ -517,7 +518,7 @@ void GOMP_atomic_start(void) { GOMP_critical_start(); }
 void GOMP_atomic_end(void) { GOMP_critical_end(); }
 
 _Bool GOMP_loop_nonmonotonic_dynamic_next(long *istart, long *iend) {
-    if (!active) return 0;
+    if (!active || callers_mode) return 0;
     int g = T[cur].dyn_gen - 1;
     if (g < 0 || g >= MAXDYN) return 0;
     point(); /* which thread grabs the next chunk is explored */
@@ -530,7 +531,7 @@ _Bool GOMP_loop_nonmonotonic_dynamic_next(long *istart, long *iend) {
     return 1;
 }
 _Bool GOMP_loop_nonmonotonic_dynamic_start(long start, long end, long incr, long chunk, long *istart, long *iend) {
-    if (!active) {
+    if (!active || callers_mode) {
         *istart = start;
         *iend = end;
         return start < end;
@@ -582,3 +583,58 @@ double __attribute__((noinline)) vrt_calld(void *fn, long *a, double *d) {
     return ((gen_d)fn)(a[0], a[1], a[2], a[3], a[4], a[5], d[0], d[1], d[2], d[3], d[4], d[5], d[6], d[7], a[6], a[7], a[8],
                        a[9], a[10], a[11]);
 }
+
+/* ---- two concurrent callers --------------------------------------------------------------------
+ * f2py releases the GIL around kernels declared `threadsafe`, so two python threads can be inside
+ * (different) kernels at the same time.  Here two complete kernel calls are the two logical threads;
+ * OpenMP regions inside them run serially with one thread each; scheduling points are the accesses to
+ * words both calls touch (static data, shared arguments), found by the same conflict-set fixpoint. */
+static struct { void *fn; long *a; double *d; long ret; } callers[2];
+static void caller_tramp(int t) {
+    callers[t].ret = ((gen_i)callers[t].fn)(callers[t].a[0], callers[t].a[1], callers[t].a[2], callers[t].a[3], callers[t].a[4], callers[t].a[5],
+                                             callers[t].d[0], callers[t].d[1], callers[t].d[2], callers[t].d[3], callers[t].d[4], callers[t].d[5],
+                                             callers[t].d[6], callers[t].d[7], callers[t].a[6], callers[t].a[7], callers[t].a[8], callers[t].a[9],
+                                             callers[t].a[10], callers[t].a[11]);
+    T[t].state = ST_DONE;
+    point();
+    swapcontext(&T[t].ctx, &main_ctx);
+}
+long vrt_call2(void *fn0, long *a0, double *d0, void *fn1, long *a1, double *d1) {
+    callers[0].fn = fn0; callers[0].a = a0; callers[0].d = d0;
+    callers[1].fn = fn1; callers[1].a = a1; callers[1].d = d1;
+    nthr = 2;
+    barrier_count = 0;
+    crit_owner = -1;
+    phase++;
+    for (int t = 0; t < 2; t++) {
+        if (!T[t].stack) T[t].stack = malloc(STACKSZ);
+        memset(T[t].stack, 0, STACKSZ);
+        T[t].state = ST_RUN;
+        getcontext(&T[t].ctx);
+        T[t].ctx.uc_stack.ss_sp = T[t].stack;
+        T[t].ctx.uc_stack.ss_size = STACKSZ;
+        T[t].ctx.uc_link = &main_ctx;
+        makecontext(&T[t].ctx, (void (*)(void))caller_tramp, 1, t);
+    }
+    callers_mode = 1;
+    active = 1;
+    cur = -1;
+    {
+        int c = 0;
+        if (npoints < sched_len) {
+            c = sched[npoints];
+            if (c >= 2 || c < 0) { status |= 1; c = 0; }
+        }
+        if (npoints < MAXPTS) { pt_nen[npoints] = 2; pt_choice[npoints] = (unsigned char)c; pt_cur_enabled[npoints] = 0; }
+        npoints++;
+        cur = c;
+        swapcontext(&main_ctx, &T[c].ctx);
+    }
+    if (T[0].state != ST_DONE || T[1].state != ST_DONE) status |= 2;
+    active = 0;
+    callers_mode = 0;
+    cur = -1;
+    phase++;
+    return 0;
+}
+long vrt_caller_ret(int t) { return callers[t].ret; }
